@@ -74,6 +74,8 @@ class Cfg:
         self.pre_post = True       # operators before the first / after the last step
         self.bwd = False           # a '## backward ##' annotation with autograd-thread ops
         self.device_only_extra = 0.0
+        self.filler = 0            # extra small host operators early in file order: event ids beyond 127 / 255
+        self.corr_start = None     # all ranks count correlation ids from the same number (ids collide across ranks)
         self.__dict__.update(kw)
 
     def to_json(self) -> Dict[str, Any]:
@@ -98,6 +100,8 @@ def draw_cfg(rng: random.Random, **force: Any) -> Cfg:
     c.memcpy_rate = rng.choice([0.0, 0.2, 0.4])
     c.noise = rng.random() < 0.8
     c.pre_post = rng.random() < 0.7
+    c.filler = rng.choice([130, 260]) if rng.random() < 0.08 else 0
+    c.corr_start = rng.choice([None, None, 1, 100])
     c.__dict__.update(force)
     return c
 
@@ -110,6 +114,8 @@ class RankSim:
         self.g = cfg.grid
         self.ev: List[Dict[str, Any]] = []
         self.corr = rng.choice([1, 5, 100, 278204204])
+        if cfg.corr_start is not None:
+            self.corr = cfg.corr_start
         self.host_pid = 1000 + rank
         self.dev_pid = rank
         self.stream_ids = rng.sample([7, 13, 20, 24, 28, 32], cfg.nstreams + (1 if cfg.two_threads else 0))
@@ -336,6 +342,13 @@ def simulate_rank(rng: random.Random, cfg: Cfg, rank: int) -> List[Dict[str, Any
         ev.insert(0, {"ph": "X", "cat": "cpu_op", "name": "aten::empty", "pid": sim.host_pid,
                       "tid": 100 + rank, "ts": cfg.offset + (max([x["ts"] + x["dur"] for x in ev], default=0) - cfg.offset) + 5 * cfg.grid,
                       "dur": cfg.grid})
+    if cfg.filler:
+        # many small operators after everything else in time but early in the file: the ids of the interesting
+        # events exceed the range of the narrow integer types the parser may pick for small values
+        hi = max(e["ts"] + e["dur"] for e in ev) + 2 * cfg.grid
+        fill = [{"ph": "X", "cat": "cpu_op", "name": rng.choice(["aten::fill_", "aten::zero_", "aten::empty"]), "pid": sim.host_pid,
+                 "tid": 100 + rank, "ts": hi + 2 * k * cfg.grid, "dur": cfg.grid} for k in range(cfg.filler)]
+        ev[1:1] = fill
     if cfg.noise:
         lo = min(e["ts"] for e in ev)
         hi = max(e["ts"] + e["dur"] for e in ev)
